@@ -998,7 +998,7 @@ func TestVerifE7Identity(t *testing.T) {
 			}
 		}
 	}
-	fmt.Printf("E7-IDENTITY cases=%d hist=%v\n", e.out.n, e.hist)
+	fmt.Printf("E7-IDENTITY cases=%d hist=%v preceded-by-config-put=%d\n", e.out.n, e.hist, vfE7PrePutDone)
 }
 
 // TestVerifE7Fanout: admin-allowed actions against every up/down pattern, both modes, bodies.
@@ -1078,7 +1078,7 @@ func TestVerifE7Fanout(t *testing.T) {
 			}
 		}
 	}
-	fmt.Printf("E7-FANOUT cases=%d hist=%v\n", e.out.n, e.hist)
+	fmt.Printf("E7-FANOUT cases=%d hist=%v preceded-by-config-put=%d\n", e.out.n, e.hist, vfE7PrePutDone)
 }
 
 // TestVerifE7Config: /config/:opt GET and PUT, client address × allowed CIDR (direct ServeHTTP
